@@ -15,7 +15,11 @@ Ties
 (M) mechanism correspondence.  `numeric.compress_indices`, `numeric.accumulate`, `evaluable.unique`, the merge of
     `Array.assparse` and `evaluable.as_csr` on generated integer data against the Lean model (Model/C05.lean) and its
     specification functions; `function.as_coo/as_csr` through `function.eval` on small FEM integrals and through the
-    consumers `matrix.assemble_csr`, `solver.System` (block jacobian) and `Topology.project`.
+    consumers `matrix.assemble_csr`, `solver.System` (block jacobian) and `Topology.project`; the block position of
+    `Inflate._assparse` (strides into the flattened dofmap) against `blockStrides`/`stridedPos` (theorem inflate_block_position).
+(S) structured higher-rank stream (nvh.c05_gen; real extraction + real evaluation + exact recomputation oracle, runs while the
+    Lean driver is busy): n-ary products of factors on arbitrary axis subsets in every construction order, block inflation with
+    dofmaps of 0..4 axes, element loops of rank 1..4 with several element dependent block lengths, DAGs with these ingredients.
 """
 import os, base64, pickle, collections, itertools, json, numpy
 from fractions import Fraction
@@ -359,7 +363,7 @@ def v_stream(c, ncases, maxdepth, npy=0, struct={}, prefix='V', late=False):
                 c.case((e.__nutils_hash__, mode))
                 c.failing_input('sparse-extraction-raises:%s:%s:%s' % (mode, type(ext).__name__, shrink.skeleton(e)),
                                 'sparse extraction (%s) raises %s: %s while the dense expression evaluates' % (mode, type(ext).__name__, str(ext)[:120]),
-                                dict(mode=mode, expr=X.describe(e, args), pickled=pack(e, args)))
+                                dict(mode=mode, tag=tag, expr=X.describe(e, args), pickled=pack(e, args)))
                 continue
             kr, parts = real_parts(mode, ext, args)
             if mode == 'coo':
@@ -1065,6 +1069,35 @@ def m_function(c, n):
     c.obligation('corr:function.as_coo/as_csr+consumers', nbad == 0, 'correspondence', '%d FEM integrals evaluated sparse and dense' % n)
 
 
+def rerun_known(c):
+    """every open known finding of this property is re-run from its recorded minimal input (field `pickled` of the entry: the pickled
+    (expression, arguments), `mode`: coo | csr | raw; or a builder registered in KNOWN_INPUTS under the entry's signature) and reported:
+    one KNOWN-FINDING line per entry that still fails, silence once it is fixed"""
+    for entry in c.findings:
+        if entry.get('status') != 'open': continue
+        try:
+            if entry.get('signature') in KNOWN_INPUTS:
+                e, args, mode = KNOWN_INPUTS[entry['signature']]()
+            elif entry.get('pickled'):
+                e, args = pickle.loads(base64.b64decode(entry['pickled'])); mode = entry.get('mode', 'coo')
+            else:
+                c.log('note: open known finding %r has no recorded input; it is reported when the streams hit its signature' % entry.get('id')); continue
+        except Exception as ex:
+            raise Infra('recorded input of known finding %r cannot be rebuilt: %r' % (entry.get('id'), ex))
+        k0, _ = X.real_eval(e, args)
+        kx, ext = extract(e, mode)
+        if kx != 'ok':
+            still = k0 == 'ok' and not (kx == 'exception' and 'caught in a loop' in str(ext) or kx == 'hang')
+        else:
+            kr, parts = real_parts(mode, ext, args)
+            still = kr != 'ok' or (finite(parts) and py_verdict(mode, parts, 0. if is_exact(e) else 1e-9) is not None)
+        c.case(('known', entry.get('id')))
+        c.report_known_still_failing(entry, still)
+
+
+KNOWN_INPUTS = {}   # signature of an open known_findings.json entry -> function returning (expression, arguments, mode)
+
+
 def run_batched(c, streams):
     """every stream is a generator that yields its Lean requests once and receives the answers: one driver process for all.
     Streams without requests (pure real-code + exact-oracle streams) do their work in the main thread while the driver is busy."""
@@ -1109,6 +1142,9 @@ def run_batched(c, streams):
 def run(c):
     c.rule = ('random well-typed evaluable DAGs (nvh.genexpr; 75% restricted to the classes with their own _assparse, float and int, ndim 0..3, axis lengths 0..3, nested '
               'loops) and FEM-like element loops with element-dependent block sizes (LoopSum of Inflate of outer products, LoopConcatenate of variable chunks); '
+              'structured higher-rank expressions (nvh.c05_gen: rank 2..4 with pairwise different axis lengths; products of 2..5 factors on arbitrary axis subsets, '
+              'all 25 ordered triples of axis subsets of a matrix in every run; Inflate with dofmaps of 0..4 axes; element loops of rank 1..4 with up to 4 element '
+              'dependent block lengths; an exception of the sparse extraction of a simplified tree whose dense evaluation succeeds is a failing input); '
               'sparse data extracted by the real code in three ways (simplified.assparse, as_csr, raw assparse); non-trivial = ndim > 0 and at least one stored entry; '
               'distinct by nutils hash of the tree and extraction mode')
     c.assumptions += ['complex dtype is not generated', 'integer arguments, axis lengths, loop lengths are sampled; real arguments are symbolic in the Lean evaluation',
@@ -1147,8 +1183,9 @@ def run(c):
     streams = [m_compress(c, 300 if quick else 20000), m_accumulate(c, 100 if quick else 3000), m_unique(c, 60 if quick else 2000),
                m_assparse(c, 60 if quick else 2000), m_blockpos(c, 30 if quick else 600), m_chunks(c, 150 if quick else 3000), m_selftest(c, 80 if quick else 3000), m_function(c, 25 if quick else 300),
                v_stream(c, 60 if quick else 1000, 4 if quick else 5),
-               v_stream(c, 0, 4 if quick else 5, 240 if quick else 4000, prefix='S', late=True,
-                        struct=dict(prod=60, orders2=1, inflate=40, loop=50, dag5=40) if quick else dict(prod=1000, orders2=4, orders3=2, inflate=1000, loop=800, dag5=1000))]
+               v_stream(c, 0, 4 if quick else 5, 240 if quick else 3000, prefix='S', late=True,
+                        struct=dict(prod=60, orders2=1, inflate=40, loop=50, dag5=40) if quick else dict(prod=800, orders2=4, orders3=2, inflate=800, loop=600, dag5=800))]
     run_batched(c, streams)
+    rerun_known(c)
     for b in broken:
         c.broken_no_input('proof', b, dict(detail=b))
